@@ -52,6 +52,7 @@ class Cfg:
     col_width_range: tuple | None = None  # page col_width drawn from this range (inches)
     group_by_p: int = 3                   # out of 10
     noncontig: float = 0.0                # probability that group_by keys are made non-contiguous
+    group_blanks: bool = False            # page_by / subline_by values may end in blanks ("Site A  ")
     page_by_return: float = 0.0           # probability that a later single-level page_by group reuses the value of an earlier, non-adjacent one
     numeric_page_by: float = 0.0          # probability that the page_by columns hold numbers (int / float) instead of tagged strings
     paper_range: tuple | None = None      # paper width / height drawn from this range (inches) instead of the menu
@@ -105,6 +106,8 @@ def group_columns(draw, n, levels, tag, cfg: Cfg, dividers=False, max_run=6, nul
                 v = None          # a null key is a value of its own
             else:
                 v = f"{tag}{level}:v{counters[level]}"
+                if cfg.group_blanks and tag in ("@G", "@B"):
+                    v += " " * draw(st.sampled_from([0, 0, 1, 2]))
             counters[level] += 1
             for i in range(pos, pos + r):
                 cols[level][i] = v
